@@ -145,6 +145,24 @@ def lv_tuple(xs):
     return {"k": "tuple", "xs": list(xs)}
 
 
+def lv_lit(v):
+    """literal pattern (int or string value)"""
+    return {"k": "lit", "v": v if isinstance(v, dict) else lit(v)["v"]}
+
+
+def lv_lity(e):
+    """`literally e`: the pattern that matches the value of e"""
+    return {"k": "lity", "e": e}
+
+
+LV_IGNORE = {"k": "ignore"}
+
+
+def switch(e, arms):
+    """arms: list of (pattern, body)"""
+    return {"n": "switch", "e": e, "arms": [{"p": p, "b": b} for p, b in arms]}
+
+
 def cl_it(x, e):
     return {"k": "it", "x": x, "e": e}
 
@@ -276,6 +294,10 @@ def p_lv(lv):
         return lv["x"]
     if lv["k"] == "ignore":
         return "_"
+    if lv["k"] == "lit":
+        return p_val(lv["v"])
+    if lv["k"] == "lity":
+        return "literally (%s)" % pp(lv["e"])
     return ", ".join(p_lv(x) if x["k"] != "tuple" else "(%s)" % p_lv(x) for x in lv["xs"])
 
 
@@ -362,6 +384,8 @@ def pp(e):
         return "(return %s)" % pp(e["e"])
     if n == "throw":
         return "(throw %s)" % pp(e["e"])
+    if n == "switch":
+        return "(switch (%s) %s)" % (pp(e["e"]), " ".join("case %s -> %s" % (p_lv(a["p"]), pp(a["b"])) for a in e["arms"]))
     if n == "try":
         return "(try %s catch %s -> %s)" % (pp(e["b"]), e["x"], pp(e["h"]))
     if n == "lam":
